@@ -211,7 +211,7 @@ def _run_huge(case):
         else:
             idx = np.zeros(n, dtype="int64")
         top = int(idx.max())
-        if 2 * (toff[b] + top) + 1 >= len(chan):
+        if toff[b] + 2 * (top + 1) > len(chan):
             v.append({"kind": "output-not-well-formed", "detail": f"{ctx}: block {b}: lookup "
                       "table extends past the end of the file"})
             break
